@@ -592,8 +592,15 @@ Proof.
   apply trim_space_id; auto. apply good_last_tok. unfold tokb. now rewrite H.
 Qed.
 
-(* parseTags inverts the renderer's strings.Join(tags, ",") *)
-Definition tag_ok (t : str) : bool := stok t && nosep 44 t.
+(* parseTags inverts the renderer's strings.Join(tags, ",").  Since /repo dfc4ae0 the tags are
+   written raw, so a tag may hold ANY byte except the quote, the comma and the newline (backslash,
+   control and non-printable bytes included); it must be non-empty and unchanged by TrimSpace
+   (which is what parseTags applies to it). *)
+Definition tagc (c : N) : bool := qc c && lc c && negb (c =? 44).
+Definition tag_ok (t : str) : bool := negb (at_end t) && forallb tagc t && beq (trim_space t) t.
+
+Lemma tagc_nosep t : forallb tagc t = true -> nosep 44 t = true.
+Proof. apply forallb_impl. intros c H. unfold tagc in H. now apply andb_true_iff in H as [_ ?]. Qed.
 
 Theorem parse_tags_join tags : tags <> [] -> Forall (fun t => tag_ok t = true) tags ->
   parse_tags (join tags [44]) = tags.
@@ -601,13 +608,13 @@ Proof.
   intros Hne H. unfold parse_tags.
   assert (Hj : join tags [44] <> []).
   { destruct tags as [|x l]; [congruence|]. apply join_cons_ne. inversion H as [|? ? Hx _]; subst.
-    unfold tag_ok, stok in Hx. destruct x; [discriminate | discriminate]. }
+    unfold tag_ok in Hx. destruct x; [discriminate | discriminate]. }
   destruct (join tags [44]) eqn:E; [congruence|]. rewrite <- E.
   rewrite split_join; auto.
   - rewrite <- (map_id tags) at 2. apply map_ext_in. intros t Ht. rewrite Forall_forall in H. specialize (H _ Ht).
-    unfold tag_ok, stok in H. apply andb_true_iff in H as [H _]. apply andb_true_iff in H as [_ H].
-    apply trim_space_tok. eapply forallb_impl; [apply safe_tokc | exact H].
-  - eapply Forall_impl; [|exact H]. intros t Ht. unfold tag_ok in Ht. now apply andb_true_iff in Ht as [_ ?].
+    unfold tag_ok in H. apply andb_true_iff in H as [_ H]. now apply beq_eq in H.
+  - eapply Forall_impl; [|exact H]. intros t Ht. unfold tag_ok in Ht. apply andb_true_iff in Ht as [Ht _].
+    apply andb_true_iff in Ht as [_ Ht]. now apply tagc_nosep.
 Qed.
 
 (* ---- strings.Fields ---- *)
@@ -715,11 +722,9 @@ Definition oop_of (tg : target) : option str :=
   match t_opts tg with [] => None | _ => Some (opts_text (t_opts tg)) end.
 
 Lemma target_config_line h p tg :
-  forallb (fun c => safe c || (c =? 44)) (join (t_tags tg) [44]) = true ->
   target_config h p tg = add_line (t_svc tg) (h ++ p) (t_url tg) (ow_of tg) (otg_of tg) (oop_of tg).
 Proof.
-  intros Hq. unfold target_config, add_line, add_tail, ow_of, otg_of, oop_of, opts_text.
-  rewrite (quote_go_safe _ Hq).
+  unfold target_config, add_line, add_tail, ow_of, otg_of, oop_of, opts_text.
   destruct (w_is_pos (t_fw tg)), (t_tags tg), (t_opts tg); cbn [clause_w clause_q];
     rewrite <- ?app_assoc; rewrite ?app_nil_r; reflexivity.
 Qed.
@@ -741,19 +746,22 @@ Definition weight_text_stable (w : wt) : Prop := pweight_dec (fmt4 w) = Ok w.
 
 Definition tg_text_ok (h p : str) (ts : list target) (tg : target) : Prop :=
   stok (t_svc tg) = true /\ stok (h ++ p) = true /\ stok (t_url tg) = true
-  /\ live ts tg = true
   /\ Forall (fun t => tag_ok t = true) (t_tags tg)
   /\ Forall (fun kv => kv_ok kv = true) (t_opts tg) /\ opts_sorted (t_opts tg)
   /\ w_is_neg (t_fw tg) = false
   /\ (w_is_pos (t_fw tg) = true -> weight_text_stable (t_fw tg)).
 
-Lemma tags_text_class tags : Forall (fun t => tag_ok t = true) tags ->
-  forallb (fun c => safe c || (c =? 44)) (join tags [44]) = true.
+Lemma tags_text_class (f : N -> bool) tags : (forall c, tagc c = true -> f c = true) -> f 44 = true ->
+  Forall (fun t => tag_ok t = true) tags -> forallb f (join tags [44]) = true.
 Proof.
-  intros H. apply forallb_join; [|reflexivity]. eapply Forall_impl; [|exact H]. intros t Ht.
-  unfold tag_ok, stok in Ht. apply andb_true_iff in Ht as [Ht _]. apply andb_true_iff in Ht as [_ Ht].
-  eapply forallb_impl; [|exact Ht]. intros c Hc. now rewrite Hc.
+  intros Hf H44 H. apply forallb_join; [|cbn; now rewrite H44]. eapply Forall_impl; [|exact H]. intros t Ht.
+  unfold tag_ok in Ht. apply andb_true_iff in Ht as [Ht _]. apply andb_true_iff in Ht as [_ Ht].
+  eapply forallb_impl; eauto.
 Qed.
+Lemma tagc_qc c : tagc c = true -> qc c = true.
+Proof. unfold tagc. intros H. apply andb_true_iff in H as [H _]. now apply andb_true_iff in H as [? _]. Qed.
+Lemma tagc_lc c : tagc c = true -> lc c = true.
+Proof. unfold tagc. intros H. apply andb_true_iff in H as [H _]. now apply andb_true_iff in H as [_ ?]. Qed.
 
 Lemma opts_text_class (f : N -> bool) o : (forall c, safe c = true -> f c = true) -> f 32 = true -> f 61 = true ->
   Forall (fun kv => kv_ok kv = true) o -> forallb f (opts_text o) = true.
@@ -773,14 +781,11 @@ Theorem target_line_parses h p ts tg : tg_text_ok h p ts tg ->
   parse_line pweight_dec (drop_cr (target_config h p tg)) = Ok (Some (def_of h p tg))
   /\ forallb lc (target_config h p tg) = true.
 Proof.
-  intros (Hs & Hr & Hu & _ & Htg & Hop & Hsort & Hneg & Hw).
-  pose proof (tags_text_class _ Htg) as Hq.
-  rewrite (target_config_line h p tg Hq).
+  intros (Hs & Hr & Hu & Htg & Hop & Hsort & Hneg & Hw).
+  rewrite (target_config_line h p tg).
   assert (How : ow_ok (ow_of tg)). { unfold ow_of, ow_ok. destruct (w_is_pos _); auto. apply fmt4_tokb. }
   assert (Hotg : oq_ok (otg_of tg)).
-  { unfold otg_of, oq_ok. destruct (t_tags tg); auto.
-    eapply forallb_impl; [|exact Hq]. intros c Hc. apply orb_true_iff in Hc as [Hc|Hc]; [now apply safe_qc|].
-    apply N.eqb_eq in Hc. subst. reflexivity. }
+  { unfold otg_of, oq_ok. destruct (t_tags tg); auto. apply tags_text_class; auto using tagc_qc. }
   assert (Hoop : oq_ok (oop_of tg)).
   { unfold oop_of, oq_ok. destruct (t_opts tg); auto.
     apply opts_text_class; auto using safe_qc. }
@@ -799,9 +804,7 @@ Proof.
   - apply add_line_lc; auto using stok_class, safe_lc.
     + unfold ow_of. destruct (w_is_pos _); auto. pose proof (fmt4_tokb (t_fw tg)) as Hf. unfold tokb in Hf.
       apply andb_true_iff in Hf as [_ Hf]. eapply forallb_impl; [apply tokc_lc | exact Hf].
-    + unfold otg_of. destruct (t_tags tg); auto.
-      eapply forallb_impl; [|exact Hq]. intros c Hc. apply orb_true_iff in Hc as [Hc|Hc]; [now apply safe_lc|].
-      apply N.eqb_eq in Hc. subst. reflexivity.
+    + unfold otg_of. destruct (t_tags tg); auto. apply tags_text_class; auto using tagc_lc.
     + unfold oop_of. destruct (t_opts tg); auto. apply opts_text_class; auto using safe_lc.
 Qed.
 
@@ -835,17 +838,17 @@ Proof.
   unfold route_defs. rewrite map_map. reflexivity.
 Qed.
 
-(* every target has a positive effective weight: String() prints all of them *)
+(* every target has a positive effective weight (no longer a condition of the round trip) *)
 Definition all_live (t : table) : Prop :=
   forall h rs r, In (h, rs) t -> In r rs -> forall tg, In tg (r_targets r) -> live (r_targets r) tg = true.
 
-Lemma table_config_flat t : all_live t -> table_config t = map line_of (flat (reorder t)).
+(* String() prints every target (since /repo cb21db5), so no liveness condition is needed *)
+Lemma table_config_flat t : table_config t = map line_of (flat (reorder t)).
 Proof.
-  intros Hl. unfold table_config, reorder, flat. rewrite flat_map_flat_map, map_flat_map.
+  unfold table_config, reorder, flat. rewrite flat_map_flat_map, map_flat_map.
   apply flat_map_ext_in. intros h _. destruct (lookup h t) as [rs|] eqn:EL; [|reflexivity].
   cbn [flat_map fst snd]. rewrite !app_nil_r. unfold flat_routes. rewrite map_flat_map.
-  apply flat_map_ext_in. intros r Hr. unfold route_config. rewrite map_map.
-  rewrite filter_all_true; [reflexivity|]. intros tg Htg. apply (Hl h rs r); auto. now apply lookup_in.
+  apply flat_map_ext_in. intros r Hr. unfold route_config. rewrite map_map. reflexivity.
 Qed.
 
 Definition text_good (t : table) : Prop :=
@@ -873,9 +876,7 @@ Section RoundTrip.
     parse pweight_dec (render t) = Ok (table_defs (reorder t)).
   Proof.
     intros Hg.
-    assert (Hl : all_live t).
-    { intros h rs r Hh Hr tg Htg. destruct (Hg h rs r tg Hh Hr Htg) as (_ & _ & _ & Hlive & _). exact Hlive. }
-    unfold render. rewrite (table_config_flat t Hl), table_defs_flat.
+    unfold render. rewrite (table_config_flat t), table_defs_flat.
     assert (Hall : Forall (fun x => parse_line pweight_dec (drop_cr (line_of x)) = Ok (Some (cmd_of x))
                                     /\ forallb lc (line_of x) = true) (flat (reorder t))).
     { apply Forall_forall. intros x Hx. apply in_flat in Hx as (h & rs & r & tg & Hh & Hr & Htg & ->).
@@ -997,11 +998,15 @@ Proof.
     destruct Hh as [Hh|[]]. inversion Hh; subst h rs. clear Hh.
     destruct Hr as [Hr|[]]. subst r. cbn [r_targets r_path] in *.
     destruct Htg as [Htg|[Htg|[]]]; subst tg; unfold tg_text_ok.
-    + split; [ev|]. split; [ev|]. split; [ev|]. split; [ev|].
+    + split; [ev|]. split; [ev|]. split; [ev|].
       split; [constructor; [ev|constructor; [ev|constructor]]|].
       split; [constructor; [ev|constructor; [ev|constructor]]|].
       split; [apply opts_sortedb_ok; ev|]. split; [ev|]. intros _. apply stable_b_ok. ev.
-    + split; [ev|]. split; [ev|]. split; [ev|]. split; [ev|].
+    + split; [ev|]. split; [ev|]. split; [ev|].
       split; [constructor|]. split; [constructor|].
       split; [apply opts_sortedb_ok; ev|]. split; [ev|]. intros H. vm_compute in H. discriminate.
 Qed.
+
+(* the tag class reaches beyond the safe byte class: backslash, control and non-ASCII bytes *)
+Lemma tag_domain_wide : tag_ok (bs "x\y") = true /\ tag_ok [1; 92; 200] = true /\ tag_ok (bs "a b") = true.
+Proof. repeat split; vm_compute; reflexivity. Qed.
